@@ -692,3 +692,53 @@ func CorrelatedInfeasibleEdges(fn *ssa.Function, site ssa.Instruction) []Edge {
 	}
 	return out
 }
+
+// FeasiblePhiEdges walks fn's CFG from its entry, deciding each If whose condition evalCond can evaluate (known=true) and exploring
+// both successors otherwise, and returns the incoming values of phi that can be selected under that (partial) valuation.
+func FeasiblePhiEdges(fn *ssa.Function, phi *ssa.Phi, evalCond func(cond ssa.Value) (val bool, known bool)) []ssa.Value {
+	type edge struct{ from, to *ssa.BasicBlock }
+	seen := map[edge]bool{}
+	var out []ssa.Value
+	have := map[ssa.Value]bool{}
+	var work []edge
+	push := func(e edge) {
+		if !seen[e] {
+			seen[e] = true
+			work = append(work, e)
+		}
+	}
+	if len(fn.Blocks) == 0 {
+		return nil
+	}
+	push(edge{nil, fn.Blocks[0]})
+	for len(work) > 0 {
+		e := work[0]
+		work = work[1:]
+		b := e.to
+		if b == phi.Block() && e.from != nil {
+			for i, p := range b.Preds {
+				if p == e.from && !have[phi.Edges[i]] {
+					have[phi.Edges[i]] = true
+					out = append(out, phi.Edges[i])
+				}
+			}
+		}
+		if len(b.Instrs) == 0 {
+			continue
+		}
+		if i, ok := b.Instrs[len(b.Instrs)-1].(*ssa.If); ok {
+			if v, known := evalCond(i.Cond); known {
+				if v {
+					push(edge{b, b.Succs[0]})
+				} else {
+					push(edge{b, b.Succs[1]})
+				}
+				continue
+			}
+		}
+		for _, s := range b.Succs {
+			push(edge{b, s})
+		}
+	}
+	return out
+}
